@@ -221,7 +221,10 @@ class MPIEndPoint(_MPISweep):
             # the full-interval correction lives on the last rank only
             if inst['rank'] < inst['M'] - 1:
                 L.tau[-1] = mk.vec('stale_tau_last')
+        from contracts.common import plant_earlier_end_value
+
         st = State(L=L, comm=comm, log=log, inst=inst, call=L.sweep.compute_end_point)
+        plant_earlier_end_value(st, L, mk.vec('L.uend_old'))
         self.snap(st)
         return st
 
@@ -230,6 +233,10 @@ class MPIEndPoint(_MPISweep):
         M, r = inst['M'], inst['rank']
         sw, dt = L.sweep, L.params.dt
         yield 'returns_normally', exc is None
+        if exc is None:
+            from contracts.common import earlier_end_value_clause
+
+            yield earlier_end_value_clause(st, L)
         if exc is not None:
             return
         if inst['mode'] == 'copy':
